@@ -451,6 +451,22 @@ def _far_enough_filter(ctx: Ctx, cls_name: str, helper_name: str, want_filter: s
         for gd in guards:
             obs.append(ctx.ob("R09.3", f, gd, status=INCONCLUSIVE, detail=f"{cls_name}: siblings are compared only under `{norm(gd.test)}`", construct="sibling-skip"))
     if hits == 0:
+        # lazily chained generator expressions: `cur = (i for i in cur if pred(i, sib.centroid))` inside the sibling loop and
+        # `list(cur)` after it. A generator evaluates its condition when it is consumed, i.e. after the loop has ended, when
+        # the loop variable holds the LAST sibling: every stage tests against that one sibling only.
+        for sl in sib_loops:
+            if not isinstance(sl.target, ast.Name):
+                continue
+            gens = [n for n in ast.walk(sl) if isinstance(n, ast.Assign) and len(n.targets) == 1 and isinstance(n.targets[0], ast.Name) and isinstance(n.value, ast.GeneratorExp) and any(is_helper_call(x) for x in ast.walk(n.value))]
+            for gn in gens:
+                lazy_reads = any(isinstance(x, ast.Name) and x.id == sl.target.id for part in ([gn.value.elt] + [c for g_ in gn.value.generators for c in g_.ifs] + [g_.iter for g_ in gn.value.generators[1:]]) for x in ast.walk(part))
+                consumed_in_loop = any(isinstance(c, ast.Call) and norm(c.func) in ("list", "tuple", "sorted", "set") and c.args and norm(c.args[0]) == gn.targets[0].id for c in ast.walk(sl))
+                if lazy_reads and not consumed_in_loop:
+                    obs.append(ctx.ob("R09.3", f, gn, status=VIOLATION, detail=f"{cls_name}: `{norm(gn)[:90]}` is a generator expression created inside the loop over siblings and consumed after it: its condition is evaluated lazily, when `{sl.target.id}` is bound to the LAST sibling, so every stage of the chain tests the distance to that one deme and candidates close to the other siblings pass", construct="lazy-generator"))
+                    hits = -1
+        if hits == -1:
+            return obs
+    if hits == 0:
         # single-comprehension form: [ind for ind in cands if all(pred(ind, s.centroid) for s in siblings)]
         quant = [c for c in ast.walk(outer[0]) if isinstance(c, ast.Call) and norm(c.func) in ("all", "any") and len(c.args) == 1 and isinstance(c.args[0], (ast.GeneratorExp, ast.ListComp)) and any(is_helper_call(x) for x in ast.walk(c))]
         if quant and norm(quant[0].func) == "any" and is_helper_call(quant[0].args[0].elt):
@@ -681,7 +697,15 @@ def r09_6(ctx: Ctx):
             if init is None:
                 continue
             pnames = init.params()[1:]
+            anns = {x.arg: (norm(x.annotation) if x.annotation is not None else "") for x in init.node.args.posonlyargs + init.node.args.args + init.node.args.kwonlyargs}
             for i, a in enumerate(c.args):
+                # a literal handed over by position must land on a parameter of its kind: after a reordering of the
+                # constructor's parameters `NBC_FarEnough(factor, 2)` sets `check_only_active=2` (truthy) instead of norm_ord
+                if isinstance(a, ast.Constant) and i < len(pnames) and a.value is not None:
+                    ann = anns.get(pnames[i], "").replace(" ", "")
+                    is_bool = isinstance(a.value, bool)
+                    mismatch = (ann == "bool" and not is_bool) or (ann in ("int", "float", "int|float", "float|int") and (is_bool or isinstance(a.value, str))) or (ann == "str" and not isinstance(a.value, str))
+                    obs.append(ctx.ob("R09.6", fac, a, status=VIOLATION if mismatch else OK, detail=f"{fname}: the literal {norm(a)} is the `{pnames[i]}` of {ci.name}" if not mismatch else f"{fname}: the positional literal {norm(a)} lands on `{pnames[i]}: {anns.get(pnames[i])}` of {ci.name} (the order of the constructor's parameters and this call disagree): the filter is configured with a setting nobody asked for", construct=f"{fname}:{ci.name}:{i}"))
                 if isinstance(a, ast.Name) and i < len(pnames):
                     got.setdefault(a.id, []).append((ci.name, pnames[i]))
             for k in c.keywords:
